@@ -489,8 +489,20 @@ fn check_state(live: &Live, model: &DModel, early: &[Paragraph], early_map: &[Op
             if keys != want_keys {
                 out.push(viol("accessors-agree", format!("text {:?}: paragraph {} keys() {:?}, model {:?}", text, i, keys, want_keys)));
             }
-            // present keys, an absent key, and the present keys in another letter case (field lookup is exact)
-            let cased: Vec<String> = m.iter().flat_map(|(k, _)| [k.to_lowercase(), k.to_uppercase()]).collect();
+            // present keys, an absent key, and near misses of the present keys (field lookup is exact)
+            let cased: Vec<String> = m
+                .iter()
+                .flat_map(|(k, _)| {
+                    // another letter case, a proper prefix, an extension of a present name
+                    let mut v = vec![k.to_lowercase(), k.to_uppercase(), format!("{}x", k)];
+                    if k.chars().count() > 1 {
+                        let mut p: String = k.clone();
+                        p.pop();
+                        v.push(p);
+                    }
+                    v
+                })
+                .collect();
             let mut probe: Vec<&str> = m.iter().map(|(k, _)| k.as_str()).collect();
             probe.push("Zz-absent");
             probe.extend(cased.iter().map(|k| k.as_str()));
